@@ -94,7 +94,7 @@ func Respell(s string) *rapid.Generator[Respelled] {
 	return rapid.Custom(func(t *rapid.T) Respelled {
 		buildInv()
 		want := norm.NFKD.String(s)
-		method := rapid.SampledFrom([]string{"NFC", "NFD", "NFKC", "NFKD", "per-token", "fullwidth", "spaces", "inverse", "inverse", "mixed"}).Draw(t, "method")
+		method := rapid.SampledFrom([]string{"NFC", "NFD", "NFKC", "NFKD", "per-token", "fullwidth", "spaces", "one-space", "inverse", "inverse", "inverse-low", "mixed"}).Draw(t, "method")
 		var out string
 		switch method {
 		case "NFC", "NFD", "NFKC", "NFKD":
@@ -109,8 +109,17 @@ func Respell(s string) *rapid.Generator[Respelled] {
 				toks[i] = Forms[rapid.SampledFrom(FormNames).Draw(t, "form")].String(tk)
 			}
 			out = strings.Join(toks, " ")
+		case "one-space":
+			// every U+0020 replaced by the same compatibility space (a validator or fast path
+			// that special-cases some of them sees a string made of that one only)
+			out = strings.ReplaceAll(s, " ", string(rapid.SampledFrom(NFKDSpaces).Draw(t, "space")))
 		case "inverse":
 			out = inverseSubst(t, want, rapid.IntRange(1, 8).Draw(t, "k"))
+		case "inverse-low":
+			// substitutions restricted to runes below a drawn threshold: strings whose highest rune
+			// sits just under the bounds a "plain text" fast path is likely to use
+			limit := rapid.SampledFrom([]rune{0xc0, 0x100, 0x300, 0x2000, 0x3000}).Draw(t, "limit")
+			out = inverseSubstBelow(t, want, rapid.IntRange(1, 6).Draw(t, "k"), limit)
 		default: // mixed
 			out = inverseSubst(t, want, rapid.IntRange(1, 4).Draw(t, "k"))
 			out = respellSpaces(t, out)
@@ -141,6 +150,28 @@ func respellSpaces(t *rapid.T, s string) string {
 		}
 	}
 	return b.String()
+}
+
+// inverseSubstBelow is inverseSubst restricted to substitute runes below limit.
+func inverseSubstBelow(t *rapid.T, d string, k int, limit rune) string {
+	rs := []rune(d)
+	for ; k > 0 && len(rs) > 0; k-- {
+		pos := rapid.IntRange(0, len(rs)-1).Draw(t, "pos")
+		for l := min(invMaxLen, len(rs)-pos); l >= 1; l-- {
+			var low []rune
+			for _, c := range invTable[string(rs[pos:pos+l])] {
+				if c < limit {
+					low = append(low, c)
+				}
+			}
+			if len(low) > 0 {
+				c := low[rapid.IntRange(0, len(low)-1).Draw(t, "cand")]
+				rs = append(rs[:pos], append([]rune{c}, rs[pos+l:]...)...)
+				break
+			}
+		}
+	}
+	return string(rs)
 }
 
 // inverseSubst replaces up to k substrings of the NFKD string d by single runes
@@ -190,7 +221,7 @@ func UString(maxPieces int) *rapid.Generator[string] {
 		n := rapid.IntRange(0, maxPieces).Draw(t, "pieces")
 		var b strings.Builder
 		for i := 0; i < n; i++ {
-			switch rapid.IntRange(0, 11).Draw(t, "kind") {
+			switch rapid.IntRange(0, 12).Draw(t, "kind") {
 			case 0:
 				b.WriteString(rapid.StringOfN(rapid.RuneFrom(nil, unicode.Latin, unicode.Digit, unicode.Punct), 0, 6, -1).Draw(t, "ascii"))
 			case 1:
@@ -227,6 +258,8 @@ func UString(maxPieces int) *rapid.Generator[string] {
 				b.WriteString(strings.Repeat(piece, rapid.IntRange(2, 80).Draw(t, "times")))
 			case 10:
 				b.WriteString(rapid.SampledFrom([]string{"\t", "\n", "\r\n", "\u000b", "\u0085", "\u1680", "\u180e", "\u200b", "\u2028", "\u2029"}).Draw(t, "ws"))
+			case 12: // Latin-1 characters with compatibility decompositions (below U+00C0)
+				b.WriteRune(rapid.SampledFrom([]rune{0xa0, 0xa8, 0xaa, 0xaf, 0xb2, 0xb3, 0xb4, 0xb5, 0xb8, 0xb9, 0xba, 0xbc, 0xbd, 0xbe}).Draw(t, "latin1"))
 			case 11:
 				b.WriteString(FullWidth(rapid.StringOfN(rapid.RuneFrom([]rune("abcxyzABC019 ")), 1, 5, -1).Draw(t, "fw")))
 			}
@@ -237,6 +270,36 @@ func UString(maxPieces int) *rapid.Generator[string] {
 		}
 		return s
 	})
+}
+
+// LowString draws ASCII text sprinkled with decomposable runes that all lie below a drawn
+// threshold (U+00C0, U+0100, U+0300, ...), so the string's highest rune sits just under it.
+func LowString() *rapid.Generator[string] {
+	return rapid.Custom(func(t *rapid.T) string {
+		buildInv()
+		limit := rapid.SampledFrom([]rune{0xc0, 0x100, 0x180, 0x300, 0x2000}).Draw(t, "limit")
+		var cands []rune
+		for _, r := range decompRunes {
+			if r < limit {
+				cands = append(cands, r)
+			}
+		}
+		var b strings.Builder
+		for i := rapid.IntRange(1, 6).Draw(t, "parts"); i > 0; i-- {
+			b.WriteString(rapid.StringOfN(rapid.RuneFrom([]rune("abcdefghijklmnopqrstuvwxyz H2O10F")), 0, 8, -1).Draw(t, "ascii"))
+			b.WriteRune(cands[rapid.IntRange(0, len(cands)-1).Draw(t, "low")])
+		}
+		return b.String()
+	})
+}
+
+// PadToNFKDLen extends s with ASCII so that its NFKD form has exactly n bytes (if it is shorter).
+func PadToNFKDLen(s string, n int) string {
+	d := len(norm.NFKD.String(s))
+	if d >= n {
+		return s
+	}
+	return s + strings.Repeat("x", n-d)
 }
 
 // StartsWithMark reports whether s begins with a combining mark.
